@@ -508,16 +508,43 @@ class IMAPClient:
             await self.push(f"* OK [CAPABILITY {capabilities}]\r\n")
             self.ibuffer = []
             self.ibuffer_size = 0
+            self.discarding = False
             client_connected = True
             while client_connected:
                 # Read until b'\r\n'. Trim off the '\r\n'. If the message is
                 # not of 0 length then append it to our incremental buffer.
                 #
-                msg = await self.read_line()
+                msg, line_size = await self.read_line()
                 msg = msg.rstrip()
+
+                # We refused a command as too large after reading one of its
+                # literals: the rest of that command is still on its way and
+                # is not the beginning of a new one. Skip it: a line that
+                # announces a non-synchronizing literal is followed by that
+                # literal and more of the command; one that announces a
+                # synchronizing literal is the last thing the client sends
+                # (it never gets our go-ahead); any other line ends it.
+                #
+                if self.discarding:
+                    m = RE_LITERAL_STRING_START.search(msg)
+                    if m and m.group(2):
+                        remaining = int(m.group(1))
+                        while remaining > 0:
+                            chunk = await self.reader.read(
+                                min(remaining, self.stream_buffer_size)
+                            )
+                            if not chunk:
+                                raise ConnectionResetError()
+                            remaining -= len(chunk)
+                    else:
+                        self.discarding = False
+                    continue
+
                 if msg:
                     self.ibuffer.append(msg)
-                    self.ibuffer_size += len(msg)
+                    # (a line we only kept the ends of counts in full)
+                    #
+                    self.ibuffer_size += max(len(msg), line_size) if line_size > MAX_INPUT_SIZE else len(msg)
 
                 # If after reading up to a line terminator our incremental
                 # buffer is empty then this is an empty message from the client
@@ -609,6 +636,7 @@ class IMAPClient:
                         )
                         self.ibuffer = []
                         self.ibuffer_size = 0
+                        self.discarding = True
                         continue
 
                     # Loop back to read what is either a b'\r\n' or maybe
@@ -677,7 +705,7 @@ class IMAPClient:
 
     ####################################################################
     #
-    async def read_line(self) -> bytes:
+    async def read_line(self) -> tuple[bytes, int]:
         """
         Read up to and including the next line terminator.
 
@@ -686,9 +714,12 @@ class IMAPClient:
         LimitOverrunError, which ended the connection without a word. Such a
         line is a command like any other, so collect it piece by piece. Once
         it is longer than we accept at all we only keep its beginning and its
-        end (what is left is still too long, so the caller refuses it with a
-        BAD, and sees a literal declaration at its end, so that we stay in
-        sync with the client.)
+        end (the caller refuses it with a BAD because of its size, which we
+        return as well, and sees a literal declaration at its end, so that
+        we stay in sync with the client.)
+
+        Returns the line (or what we kept of it) and the number of octets
+        before its line terminator.
         """
         pieces: list[bytes] = []
         size = 0
@@ -704,7 +735,7 @@ class IMAPClient:
             pieces.append(piece)
             size += len(piece)
             if done:
-                return b"".join(pieces)
+                return b"".join(pieces), size - len(self.LINE_TERMINATOR)
 
     ####################################################################
     #
